@@ -17,4 +17,5 @@ INVARIANTS
   InvKeptInPlace
   InvUnmountOrder
   InvMountOrder
+  InvUnmountStrandsNothing
   InvUnmountOrderTrue
